@@ -1211,6 +1211,26 @@ func checkCavityEdges(ctx *Ctx, r *Report) {
 				}
 				return
 			}
+			// the tag written element by element through a pointer to the edge (`*a = EdgeI{-1, -1}`
+			// is built in place): a negative constant stored into an element of an edge
+			if k, isC := st.Val.(*ssa.Const); isC && isEdge(derefType(ia.X.Type())) {
+				if k.Value == nil || k.Value.Kind() != constant.Int || constant.Sign(k.Value) >= 0 {
+					return
+				}
+				nTag++
+				for _, g := range branchGuards(b) {
+					if !ld.in[g.at] && g.at != ld.header {
+						continue
+					}
+					if il := innermostLoop(fn, g.at); il != nil && g.at == il.header {
+						continue
+					}
+					if !onlyEq(g.cond, 0) && !isTagTest(g.cond) && len(badTag) < 300 {
+						badTag += " the test at " + ctx.pos(branchPos(g.at, g.at.Instrs[len(g.at.Instrs)-1].(*ssa.If))) + " is not a comparison of end point indices;"
+					}
+				}
+				return
+			}
 			if !isEdge(derefType(ia.Type())) {
 				return
 			}
